@@ -1,23 +1,27 @@
 import PybropsModel.J
 import PybropsModel.Model.Coancestry
+import PybropsModel.Model.CoancestrySpec
 open Lean
 
 /-!
-Driver ops of C13.
-  c13.cmat       model of `<Coancestry>.from_gmat` (+ formats, summaries, taxa sub-selection)
-  c13.summ       model of the summaries of an arbitrary `DenseCoancestryMatrix`
-  c13.yang_float `yang` exactly as written (with the square roots), executed on `Float`
-  c13.spec_cmat  Spec oracle: the property evaluated on the implementation's matrices
-  c13.spec_summ  Spec oracle for the summaries of the implementation's matrix
+Driver ops of C13 (JSON decoding only; the checks are the pure functions of `Model/CoancestrySpec.lean`).
+  c13.cmat         model of `<Coancestry>.from_gmat` through the class method / factory / subclass dispatch
+                   (+ formats, summaries, taxa sub-selection)
+  c13.summ         model of the summaries of an arbitrary `DenseCoancestryMatrix`
+  c13.yang_float   `yang` exactly as written (with the square roots), executed on `Float`
+  c13.spec_cmat    Spec oracle `Spec.specCmat`: the property evaluated on the implementation's matrices
+  c13.spec_summ    Spec oracle `Spec.specSumm` for the summaries of the implementation's matrix
+  c13.jitter       model of `apply_jitter` with the recorded oracle inputs
+  c13.spec_reorder Spec oracle `Spec.specReorder`: `reorder_taxa` / `sort_taxa` / `group_taxa` / `select_taxa`
+                   of the object (C03's `LabelMat` on the square schema) against what the implementation left
 -/
 namespace Drv.C13
 open Coancestry
 
 abbrev M := List (List Rat)
+open Coancestry.Spec
 
 /-! ### argument decoding -/
-
-inductive Arg | none | scalar (q : Rat) | array (l : List Rat)
 
 def argOf (j : Json) (k : String) : J.R Arg :=
   match j.getObjVal? k with
@@ -29,14 +33,6 @@ def argOf (j : Json) (k : String) : J.R Arg :=
   | .ok v => do
       let q ← J.rat v
       pure (.scalar q)
-
-structure Gm where
-  ploidy : Nat
-  n : Nat
-  m : Nat
-  phased : Bool
-  g3 : List (List (List Rat))     -- phase × taxa × marker (phased only)
-  X : M                            -- tacount view
 
 def gmOf (j : Json) : J.R Gm := do
   let ploidy ← J.field j "ploidy" J.nat
@@ -51,27 +47,24 @@ def gmOf (j : Json) : J.R Gm := do
     let X ← J.field j "geno" (J.mat J.rat)
     pure ⟨ploidy, n, m, false, [], X⟩
 
-/-- reference frequencies in force: estimated (`None`), repeated scalar, or the checked array -/
-def resolveP (g : Gm) (a : Arg) : Except Err (List Rat) :=
-  match a with
-  | .none => .ok (afreq g.ploidy g.n g.m g.X)
-  | .scalar q => if q < 0 || 1 < q then .error .range else .ok (List.replicate g.m q)
-  | .array l => (checkP g.m l).map (fun _ => l)
+def estimatorOf (j : Json) : J.R Estimator := do
+  let method ← J.field j "method" J.str
+  match Estimator.ofString? method with
+  | some e => pure e
+  | none => J.fail s!"unknown method {method}"
 
-/-- marker weights in force: ones (`None`), repeated non-negative scalar, or the array (length checked) -/
-def resolveW (g : Gm) (a : Arg) : Except Err (List Rat) :=
-  match a with
-  | .none => .ok (List.replicate g.m 1)
-  | .scalar q => if q < 0 then .error .range else .ok (List.replicate g.m q)
-  | .array l => if l.length ≠ g.m then .error .shape else .ok l
-
-def runMethod (method : String) (g : Gm) (pa wa : Arg) : J.R (Except Err M) :=
-  match method with
-  | "mol" => pure (molecular g.ploidy g.m g.X)
-  | "vr" => pure (do let p ← resolveP g pa; vanraden g.ploidy p g.X)
-  | "yang" => pure (do let p ← resolveP g pa; yangClosed g.ploidy g.m p g.X)
-  | "gw" => pure (do let w ← resolveW g wa; let p ← resolveP g pa; pure (gw g.ploidy w p g.X))
-  | s => J.fail s!"unknown method {s}"
+/-- `from_gmat` through the class method, the factory or a user subclass: argument checks in the order of the
+    code (weights first for the generalised weighted estimator, then frequencies), then the estimator -/
+def runMethod (e : Estimator) (g : Gm) (pa wa : Arg) (via : String := "class") : Except Err M :=
+  let args : Except Err (List Rat × List Rat) := match e with
+    | .molecular => .ok ([], [])
+    | .gw => do let w ← resolveW g wa; let p ← resolveP g pa; pure (w, p)
+    | _ => do let p ← resolveP g pa; pure ([], p)
+  let run : Nat → Nat → List Rat → List Rat → M → Except Err M := match via with
+    | "factory" => Factory.fromGmat e
+    | "subclass" => Subclass.fromGmat e
+    | _ => estimate e
+  do let (w, p) ← args; run g.ploidy g.m w p g.X
 
 /-! ### summaries -/
 
@@ -88,29 +81,28 @@ def summJson (kin : Bool) (G : M) : Json :=
     ("mean", J.obj [("all", J.ofRat (f (meanAll G))), ("rows", J.ofList J.ofRat ((meanRows G).map f)),
                     ("cols", J.ofList J.ofRat ((meanCols G).map f))]),
     ("max_inb", optRat ((maxInbreeding G).map f)),
-    ("inv", J.ofOpt (J.ofMat J.ofRat) (inverseFmt kin G)),
-    ("min_inb", optRat (minInbreeding kin G)),
+    ("inv", J.ofOpt (J.ofMat J.ofRat) (if G.length ≤ invMaxN then inverseFmt kin G else none)),
+    ("min_inb", optRat (if G.length ≤ invMaxN then minInbreeding kin G else none)),
     ("mat", J.ofMat J.ofRat (asFormat kin G))]
 
 def opCmat : J.Op := fun j => do
-  let method ← J.field j "method" J.str
+  let e ← estimatorOf j
   let g ← gmOf j
   let pa ← argOf j "p"
   let wa ← argOf j "w"
   let sel ← J.fieldOpt j "sel" (J.list J.nat)
-  let r ← runMethod method g pa wa
-  match r with
-  | .error e => pure (J.obj [("err", J.ofStr e.tag)])
+  let via ← J.fieldD j "via" J.str "class"
+  match runMethod e g pa wa via with
+  | .error err => pure (J.obj [("err", J.ofStr err.tag)])
   | .ok G =>
     -- sub-selection first, then the estimator (the other order is `selectSq` of `G`)
-    let selA ← match sel with
-      | none => pure Json.null
-      | some is => do
+    let selA := match sel with
+      | none => Json.null
+      | some is =>
           let g' : Gm := { g with n := is.length, X := Np.take is g.X, g3 := g.g3.map (Np.take is) }
-          let r' ← runMethod method g' pa wa
-          match r' with
-          | .error e => pure (J.obj [("err", J.ofStr e.tag)])
-          | .ok G' => pure (J.ofMat J.ofRat G')
+          match runMethod e g' pa wa via with
+          | .error err => J.obj [("err", J.ofStr err.tag)]
+          | .ok G' => J.ofMat J.ofRat G'
     let selB := match sel with
       | none => Json.null
       | some is => J.ofMat J.ofRat (selectSq is G)
@@ -151,88 +143,13 @@ def opYangFloat : J.Op := fun j => do
     | .error e => pure (J.obj [("err", J.ofStr e.tag)])
     | .ok G => pure (J.obj [("mat", J.ofList (J.ofList floatJson) G)])
 
-/-! ### Spec oracle -/
-
-def absR (q : Rat) : Rat := if q < 0 then -q else q
-def maxR (a b : Rat) : Rat := if a < b then b else a
-def maxAbs (G : M) : Rat := G.flatten.foldl (fun acc x => maxR acc (absR x)) 0
-
-/-- tolerant equality: `|a-b| ≤ abs` or `|a-b| ≤ rel·max(|a|,|b|)` -/
-def closeR (rel abs : Rat) (a b : Rat) : Bool :=
-  let d := absR (a - b)
-  d ≤ abs || d ≤ rel * maxR (absR a) (absR b)
-
-def closeL (rel abs : Rat) (a b : List Rat) : Bool :=
-  a.length == b.length && (List.zip a b).all (fun ab => closeR rel abs ab.1 ab.2)
-
-def closeM (rel abs : Rat) (A B : M) : Bool :=
-  A.length == B.length && (List.zip A B).all (fun ab => closeL rel abs ab.1 ab.2)
-
-def isSquare (n : Nat) (G : M) : Bool := G.length == n && G.all (fun r => r.length == n)
-
-/-- exact test `A ⪰ 0` for a symmetric rational matrix by symmetric elimination (Schur complements):
-    a negative pivot, or a zero pivot with a non-zero row, refutes it -/
-def psdGo : Nat → M → Bool
-  | 0, _ => true
-  | _, [] => true
-  | _, [] :: _ => true
-  | fuel+1, (d :: r) :: rest =>
-    if d < 0 then false
-    else if d == 0 then r.all (· == 0) && psdGo fuel (rest.map (fun row => row.drop 1))
-    else psdGo fuel (rest.map (fun row =>
-      let c := row.headD 0
-      List.zipWith (fun x y => x - (c / d) * y) (row.drop 1) r))
-
-def symPart (G : M) : M :=
-  let n := G.length
-  (List.range n).map (fun i => (List.range n).map (fun j => (entry G i j + entry G j i) / 2))
-
-/-- `A + shift·I ⪰ 0` (A symmetrised first) -/
-def psdShift (shift : Rat) (G : M) : Bool :=
-  let S := symPart G
-  let S' := S.zipIdx.map (fun ri => ri.1.zipIdx.map (fun xj => if xj.2 = ri.2 then xj.1 + shift else xj.1))
-  psdGo (G.length + 1) S'
-
-def matMul (A B : M) : M := Coancestry.mul (B.headD []).length A B
-
-def identity (n : Nat) : M := (List.range n).map (fun i => (List.range n).map (fun j => if i = j then 1 else 0))
-
-/-- conditioning proxy of a matrix with exact inverse `Ai`: n·max|A|·max|A⁻¹| -/
-def condProxy (A Ai : M) : Rat := (A.length : Rat) * maxAbs A * maxAbs Ai
-
-structure Check where
-  name : String
-  ok : Bool
+/-! ### Spec oracle: decode, then the pure checks of `Model/CoancestrySpec.lean` -/
 
 def report (cs : List Check) : Json :=
   let bad := cs.filter (fun c => !c.ok)
   J.obj [("ok", J.ofBool bad.isEmpty),
          ("failed", J.ofList J.ofStr (bad.map (·.name))),
          ("checked", J.ofList J.ofStr (cs.map (·.name)))]
-
-/-- independent evaluation of the published formula, entry by entry -/
-def formulaMat (method : String) (g : Gm) (p w : List Rat) : M :=
-  let idx := List.range g.n
-  idx.map (fun i => idx.map (fun j =>
-    match method with
-    | "mol" =>
-      if g.phased then molecularFormula g.m (ibsPhased g.g3) i j
-      else molecularFormula g.m (ibsCount g.ploidy g.X) i j
-    | "vr" => vanradenFormula g.ploidy g.m p g.X i j
-    | "yang" => yangFormula g.ploidy g.m p g.X i j
-    | _ => gwFormula g.ploidy g.m w p g.X i j))
-
-def pInForce (g : Gm) (a : Arg) : List Rat :=
-  match a with
-  | .none => (List.range g.m).map (afreqFormula g.ploidy g.n g.X)
-  | .scalar q => List.replicate g.m q
-  | .array l => l
-
-def wInForce (g : Gm) (a : Arg) : List Rat :=
-  match a with
-  | .none => List.replicate g.m 1
-  | .scalar q => List.replicate g.m q
-  | .array l => l
 
 def optStrs (j : Json) (k : String) : J.R (Option (List String)) := J.fieldOpt j k (J.list J.str)
 def optInts (j : Json) (k : String) : J.R (Option (List Int)) := J.fieldOpt j k (J.list J.int)
@@ -247,128 +164,52 @@ def metaOf (j : Json) (k : String) : J.R (Option GrpMeta) :=
     pure (⟨name, stix, spix, len⟩ : GrpMeta))
 
 def opSpecCmat : J.Op := fun j => do
-  let method ← J.field j "method" J.str
+  let e ← estimatorOf j
   let g ← gmOf j
   let pa ← argOf j "p"
   let wa ← argOf j "w"
   let taxa ← optStrs j "taxa"
   let grp ← optInts j "taxa_grp"
-  let o ← J.field j "out" pure
-  let G ← J.field o "mat" (J.mat J.rat)
-  let co ← J.field o "co" (J.mat J.rat)
-  let kin ← J.field o "kin" (J.mat J.rat)
-  let taxaO ← optStrs o "taxa"
-  let grpO ← optInts o "taxa_grp"
   let metaS ← metaOf j "meta"
-  let metaO ← metaOf o "meta"
-  -- the model object built from the source labels: what `fromGmat` hands on
-  let labS : Labels := ⟨taxa, grp, metaS⟩
-  let labO : Labels := ⟨taxaO, grpO, metaO⟩
-  let acc ← J.fieldD o "acc" (J.list (J.list J.rat)) []   -- [i, j, coancestry(i,j), kinship(i,j)]
-  let p := pInForce g pa
-  let w := wInForce g wa
-  let F := formulaMat method g p w
-  let scale := maxR 1 (maxAbs G)
-  let idx := List.range g.n
-  let mut cs : List Check := [
-    ⟨"shape", isSquare g.n G⟩,
-    ⟨"formula", closeM (1/1000000000) (scale / 100000000000) G F⟩,
-    ⟨"coancestry_view_is_mat", co == G⟩,
-    ⟨"kinship_exactly_half", kin == mapMat (fun x => x / 2) G⟩,
-    ⟨"accessors", acc.all (fun a =>
-        let i := (a.getD 0 0).num.toNat
-        let k := (a.getD 1 0).num.toNat
-        a.getD 2 0 == entry G i k && a.getD 3 0 * 2 == entry G i k)⟩,
-    ⟨"symmetric", idx.all (fun i => idx.all (fun k =>
-        absR (entry G i k - entry G k i) ≤ scale / 1000000000000))⟩,
-    ⟨"psd_up_to_rounding", psdShift (scale / 1000000000) G⟩,
-    ⟨"taxa_carried", taxaO == taxa⟩,
-    ⟨"taxa_grp_carried", grpO == grp⟩,
-    ⟨"group_metadata_carried", decide (labO.grpMeta = labS.grpMeta)⟩]
+  let o ← J.field j "out" pure
+  let obs : CmatObs := {
+    mat := ← J.field o "mat" (J.mat J.rat), co := ← J.field o "co" (J.mat J.rat),
+    kin := ← J.field o "kin" (J.mat J.rat), acc := ← J.fieldD o "acc" (J.list (J.list J.rat)) [],
+    lab := ⟨← optStrs o "taxa", ← optInts o "taxa_grp", ← metaOf o "meta"⟩ }
   -- permutation / sub-selection of taxa (only sent for estimators that do not re-estimate p)
-  match ← J.fieldOpt j "sel" (J.list J.nat) with
-  | none => pure ()
-  | some is =>
-    let sa ← J.field o "sel_a" pure       -- from_gmat(gmat.select_taxa(is))
-    let sb ← J.field o "sel_b" pure       -- from_gmat(gmat).select_taxa(is)
-    let Ga ← J.field sa "mat" (J.mat J.rat)
-    let Gb ← J.field sb "mat" (J.mat J.rat)
-    let ta ← optStrs sa "taxa"
-    let tb ← optStrs sb "taxa"
-    let ga ← optInts sa "taxa_grp"
-    let gb ← optInts sb "taxa_grp"
-    let want := selectSq is G
-    cs := cs ++ [
-      ⟨"select_commutes", closeM (1/1000000000) (scale / 100000000000) Ga want
-                          && closeM (1/1000000000) (scale / 100000000000) Gb want⟩,
-      ⟨"select_labels", ta == taxa.map (Np.take is) && tb == ta && ga == grp.map (Np.take is) && gb == ga⟩]
-  pure (report cs)
+  let sel ← match ← J.fieldOpt j "sel" (J.list J.nat) with
+    | none => pure none
+    | some is => do
+      let sa ← J.field o "sel_a" pure       -- from_gmat(gmat.select_taxa(is))
+      let sb ← J.field o "sel_b" pure       -- from_gmat(gmat).select_taxa(is)
+      pure (some ({ is := is, Ga := ← J.field sa "mat" (J.mat J.rat), Gb := ← J.field sb "mat" (J.mat J.rat),
+                    ta := ← optStrs sa "taxa", tb := ← optStrs sb "taxa", ga := ← optInts sa "taxa_grp",
+                    gb := ← optInts sb "taxa_grp" } : SelObs))
+  -- the model object built from the source labels: what `fromGmat` hands on
+  pure (report (specCmat e g pa wa ⟨taxa, grp, metaS⟩ obs sel))
 
-/-- summaries of the implementation's own matrix `A` (format `kin`) against exact evaluation -/
-def specSumm (kin : Bool) (A : M) (s : Json) (tag : String) (symmetric : Bool) : J.R (List Check) := do
-  let B : M := if kin then mapMat (fun x => x / 2) A else A
-  let rel : Rat := 1/1000000000
-  let abs : Rat := maxR 1 (maxAbs A) / 100000000000
+def summObsOf (s : Json) : J.R SummObs := do
   let mx ← J.field s "max" pure
   let mn ← J.field s "min" pure
   let me ← J.field s "mean" pure
-  let mxA ← J.field mx "all" J.rat
-  let mxR ← J.field mx "rows" (J.list J.rat)
-  let mxC ← J.field mx "cols" (J.list J.rat)
-  let mnA ← J.field mn "all" J.rat
-  let mnR ← J.field mn "rows" (J.list J.rat)
-  let mnC ← J.field mn "cols" (J.list J.rat)
-  let meA ← J.field me "all" J.rat
-  let meR ← J.field me "rows" (J.list J.rat)
-  let meC ← J.field me "cols" (J.list J.rat)
-  let mib ← J.field s "max_inb" J.rat
-  let view ← J.field s "mat" (J.mat J.rat)
-  let mut cs : List Check := [
-    ⟨tag ++ ".view", view == B⟩,
-    ⟨tag ++ ".max", some mxA == maxAll B && some mxR == maxRows B && some mxC == maxCols B⟩,
-    ⟨tag ++ ".min", some mnA == minAll B && some mnR == minRows B && some mnC == minCols B⟩,
-    ⟨tag ++ ".mean", closeR rel abs meA (meanAll B) && closeL rel abs meR (meanRows B)
-                      && closeL rel abs meC (meanCols B)⟩,
-    ⟨tag ++ ".max_inbreeding", some mib == maxInbreeding B⟩]
-  -- inverse and minimum inbreeding: only where the exact inverse exists and the problem is well conditioned
-  match inverse B with
-  | none => pure ()
-  | some Bi =>
-    if condProxy B Bi ≤ 10000 then
-      let inv ← J.fieldOpt s "inv" (J.mat J.rat)
-      let mi ← J.fieldOpt s "min_inb" J.rat
-      let tol := maxAbs Bi / 1000000
-      cs := cs ++ [⟨tag ++ ".inverse", match inv with
-        | none => false
-        | some I => isSquare B.length I &&
-            (List.zip I.flatten Bi.flatten).all (fun ab => absR (ab.1 - ab.2) ≤ tol) &&
-            closeM 0 (1/1000000) (matMul B I) (identity B.length)⟩]
-      let tot := sumAll Bi
-      if absR tot * 1000 ≥ maxAbs Bi then
-        cs := cs ++ [⟨tag ++ ".min_inbreeding", match mi with
-          | none => false
-          | some x => closeR (1/1000000) 0 x (1 / tot)⟩]
-    else pure ()
-  -- is_positive_semidefinite (contract on the eigen-solver): `True` only for a PSD matrix,
-  -- and `True` for every clearly positive definite one
-  if symmetric && !kin then
-    match ← J.fieldOpt s "is_psd" J.bool with
-    | none => pure ()
-    | some b =>
-      let scale := maxR 1 (maxAbs A)
-      let sound := !b || psdShift (scale / 1000000000) A
-      let complete := b || !psdShift (-(scale / 1000000)) A
-      cs := cs ++ [⟨tag ++ ".is_psd_sound", sound⟩, ⟨tag ++ ".is_psd_complete", complete⟩]
-  pure cs
+  pure {
+    mxA := ← J.field mx "all" J.rat, mxR := ← J.field mx "rows" (J.list J.rat), mxC := ← J.field mx "cols" (J.list J.rat),
+    mnA := ← J.field mn "all" J.rat, mnR := ← J.field mn "rows" (J.list J.rat), mnC := ← J.field mn "cols" (J.list J.rat),
+    meA := ← J.field me "all" J.rat, meR := ← J.field me "rows" (J.list J.rat), meC := ← J.field me "cols" (J.list J.rat),
+    mib := ← J.field s "max_inb" J.rat, view := ← J.field s "mat" (J.mat J.rat),
+    inv := ← J.fieldOpt s "inv" (J.mat J.rat), minInb := ← J.fieldOpt s "min_inb" J.rat,
+    isPsd := ← J.fieldOpt s "is_psd" J.bool,
+    psdTol := ← J.fieldD s "is_psd_tol" (J.list (fun e => do
+      let t ← J.field e "tol" J.rat
+      let b ← J.field e "ans" J.bool
+      pure (t, b))) [] }
 
 def opSpecSumm : J.Op := fun j => do
   let A ← J.field j "mat" (J.mat J.rat)
-  let co ← J.field j "co" pure
-  let kin ← J.field j "kin" pure
+  let co ← J.field j "co" summObsOf
+  let kin ← J.field j "kin" summObsOf
   let symmetric ← J.fieldD j "symmetric" J.bool false
-  let c1 ← specSumm false A co "coancestry" symmetric
-  let c2 ← specSumm true A kin "kinship" symmetric
-  pure (report (c1 ++ c2))
+  pure (report (specSumm false A co "coancestry" symmetric ++ specSumm true A kin "kinship" symmetric))
 
 /-! ### apply_jitter with the recorded oracle inputs -/
 
@@ -388,8 +229,39 @@ def opJitter : J.Op := fun j => do
   let r := applyJitter isPsd draws G
   pure (J.obj [("mat", J.ofMat J.ofRat r.1), ("ok", J.ofBool r.2)])
 
+/-! ### in-place reordering of the object (DenseSquareTaxaMatrix through C03's `LabelMat`) -/
+
+def objOf (j : Json) : J.R (Obj Rat) := do
+  let G ← J.field j "mat" (J.mat J.rat)
+  let taxa ← optInts j "taxa"
+  let grp ← optInts j "taxa_grp"
+  let gm ← J.fieldOpt j "meta" (fun v => do
+    let name ← J.field v "name" (J.list J.int)
+    let stix ← J.field v "stix" (J.list J.nat)
+    let spix ← J.field v "spix" (J.list J.nat)
+    let len ← J.field v "len" (J.list J.nat)
+    pure (⟨name, stix, spix, len⟩ : LabelMat.Grp Int))
+  pure (toObj G taxa grp gm)
+
+/-- `pre`: the object before the call, `post`: the object afterwards (for `select_taxa`: the returned
+    object), both read back from the implementation; the model of the call is applied to `pre` -/
+def opSpecReorder : J.Op := fun j => do
+  let pre ← J.field j "pre" objOf
+  let post ← J.field j "post" objOf
+  let d ← J.field j "do" pure
+  let name ← J.field d "name" J.str
+  let is ← J.fieldD d "indices" (J.list J.int) []
+  let op : ObjOp ← match name with
+    | "reorder_taxa" => pure (.reorder is)
+    | "sort_taxa" => pure .sort
+    | "group_taxa" => pure .group
+    | "select_taxa" => pure (.select is)
+    | s => J.fail s!"unknown object operation {s}"
+  pure (report (specReorder op pre post))
+
 def ops : List (String × J.Op) :=
   [("c13.cmat", opCmat), ("c13.summ", opSumm), ("c13.yang_float", opYangFloat),
-   ("c13.spec_cmat", opSpecCmat), ("c13.spec_summ", opSpecSumm), ("c13.jitter", opJitter)]
+   ("c13.spec_cmat", opSpecCmat), ("c13.spec_summ", opSpecSumm), ("c13.jitter", opJitter),
+   ("c13.spec_reorder", opSpecReorder)]
 
 end Drv.C13
